@@ -303,6 +303,11 @@ FIXED2 = {  # second-order curved counterparts
 }
 
 
+HEXBOX = dict(cls='MeshHex1', p=[[0.25, 0.25, 1.75, 1.75, 0.25, 0.25, 1.75, 1.75], [-1.0, -0.5, -1.0, -0.5, -1.0, -0.5, -1.0, -0.5],
+                                 [0.5, 0.5, 0.5, 0.5, 1.5, 1.5, 1.5, 1.5]],
+              t=[[0], [1], [2], [4], [3], [5], [6], [7]], feat=['hex', 'fixed', 'box'])      # = MeshHex.init_tensor(...)
+
+
 def mapped_enum_cases(tier):
     out = []
     for d in elem_variants():
@@ -312,10 +317,17 @@ def mapped_enum_cases(tier):
         kind = info['ref']
         from ..cases import build_element
         n = len(build_element(d).doflocs) if hasattr(build_element(d), 'doflocs') else None
-        for mesh in [FIXED[kind]] + ([FIXED2[kind]] if kind in FIXED2 and not info['family'].startswith('global') else []):
+        meshes_ = [FIXED[kind]] + ([FIXED2[kind]] if kind in FIXED2 and not info['family'].startswith('global') else [])
+        picks_ = range(n) if n is not None else []
+        if d['cls'] == 'ElementHexC1':
+            # global elements are judged on affine cells (see body_mapped); the only 3-D one costs ~11 s per local function
+            # (64 x 64 Vandermonde with third derivatives): two functions on every change, all of them in the thorough tier
+            meshes_ = [HEXBOX]
+            picks_ = [0, 37] if tier == 'quick' else range(n)
+        for mesh in meshes_:
             if n is None:
                 continue
-            for i in range(n):
+            for i in picks_:
                 out.append(dict(mesh=mesh, elem=d, pick=i, layout='shared', tind=['none', 'subset'][i % 2]))
     return out
 
@@ -334,7 +346,7 @@ def dual_cases(tier):
         if d['cls'] in ('ElementTriN1', 'ElementQuadN1', 'ElementTetN0', 'ElementTetN1'):
             out.append(dict(kind='circulation', elem=d))
         if info['family'].startswith('global'):
-            for g in range(4):
+            for g in range(len(GEO[info['ref']])):
                 out.append(dict(kind='global', elem=d, geo=g))
     # wrappers keep the nodal/pou structure componentwise
     for base in ('ElementTriP2', 'ElementQuad2', 'ElementTetP2', 'ElementHex1', 'ElementLineP2'):
@@ -354,7 +366,8 @@ GEO = {
             ([[-1., 0.5, -0.25], [2., 2.25, 3.5]])],
     'line': [[[0., 1.]], [[0.5, 2.0]], [[3.0, 1.0]], [[-1.0, -0.25]]],
     'quad': [([[0., 1., 1., 0.], [0., 0., 1., 1.]]), ([[0.5, 2.5, 2.5, 0.5], [1., 1., 1.5, 1.5]]),
-             ([[0., 2., 2., 0.], [0., 0., 0.5, 0.5]]), ([[-1., 0., 0., -1.], [2., 2., 4., 4.]])],
+             ([[0., 2., 2., 0.], [0., 0., 0.5, 0.5]]), ([[-1., 0., 0., -1.], [2., 2., 4., 4.]]),
+             ([[0., 1., 1.5, 0.5], [0., 0., 1., 1.]]), ([[0., 2., 1.5, 0.25], [0., 0.25, 1.5, 1.]])],
     'hex': [None, None, None, None],
 }
 
